@@ -207,7 +207,10 @@ func VerifC10Filter(nAllow, nDeny, sparse int) {
 func VerifC10Headers() {
 	f, err := NewIPFilter([]string{"10.0.0.0/8"}, []string{"10.6.6.6"})
 	verifrt.Assert(err == nil, "well-formed lists are accepted")
-	peer := []string{"10.1.2.3:999", "10.6.6.6:999", "203.0.113.9:999"}[verifrt.Choice("peer", 3)]
+	// peer addresses as net/http reports them, and the port-less / unparsable forms other servers or tests produce
+	peers := []string{"10.1.2.3:999", "10.6.6.6:999", "203.0.113.9:999", "10.1.2.3", "203.0.113.9", "10.6.6.6", "@", "", "[2001:db8::1]", "2001:db8::1"}
+	pi := verifrt.Choice("peer", len(peers))
+	peer := peers[pi]
 	served := func(xff, xri string) bool {
 		hit := false
 		h := f.Middleware(http.HandlerFunc(func(http.ResponseWriter, *http.Request) { hit = true }))
@@ -225,7 +228,7 @@ func VerifC10Headers() {
 	plain := served("", "")
 	withHeaders := served(forged[verifrt.Choice("xff", len(forged))], forged[verifrt.Choice("xri", 4)])
 	verifrt.Assert(plain == withHeaders, "the decision does not depend on client-supplied X-Forwarded-For / X-Real-IP")
-	verifrt.Assert(plain == (peer == "10.1.2.3:999"), "the decision follows the peer address")
+	verifrt.Assert(plain == (pi == 0 || pi == 3), "the decision follows the peer address")
 }
 
 // VerifC10FailClosed: a malformed list entry never results in an unfiltered API.
